@@ -1,34 +1,410 @@
 /-
   QuoteEquiv.lean — the compiled quoter and the pure-Python quoter compute the
-  same function (statements; proofs below).
+  same function.
 -/
 import YarlProofs.Defs
+import YarlProofs.Lemmas.Hex
 namespace Yarl
+
+namespace QuoteEquiv
+open Yarl.Hex
+
+/-! ### UTF-8 facts -/
+
+theorem utf8_ascii {c : Nat} (h : c < 128) : utf8 c = [c] := by
+  simp [utf8, h]
+
+theorem utf8_high {c : Nat} (h : 128 ≤ c) : ∀ b ∈ utf8 c, 128 ≤ b := by
+  intro b hb
+  unfold utf8 at hb
+  repeat' split at hb
+  all_goals simp at hb
+  all_goals omega
+
+theorem utf8_length {c : Nat} (h : 128 ≤ c) (hp : c ≤ 0x10FFFF) (hs : isSurrogate c = false) :
+    2 ≤ (utf8 c).length := by
+  unfold utf8
+  simp only [hs, Bool.false_eq_true, if_false]
+  repeat' split
+  all_goals simp
+  all_goals omega
+
+theorem utf8_ne_nil {c : Nat} (hp : c ≤ 0x10FFFF) (hs : isSurrogate c = false) :
+    (utf8 c).isEmpty = false := by
+  unfold utf8
+  simp only [hs, Bool.false_eq_true, if_false]
+  repeat' split
+  all_goals simp
+  all_goals omega
+
+theorem utf8_surrogate {c : Nat} (hs : isSurrogate c = true) : utf8 c = [] := by
+  have : 0xD800 ≤ c := by
+    unfold isSurrogate at hs; simp at hs; omega
+  unfold utf8
+  simp only [hs, if_true]
+  repeat' split
+  all_goals first | rfl | omega
+
+theorem utf8s_cons (c : Nat) (s : Str) : utf8s (c :: s) = utf8 c ++ utf8s s := by
+  simp [utf8s]
+
+
+/-! ### one-step unfolding lemmas -/
+
+theorem cOut_esc (t : QTab) {rest rest' : Str} {v d1 d2 : Nat} (hr : t.requote = true)
+    (h : takeEscape restoreCh rest = some (v, d1, d2, rest')) :
+    cOut t (37 :: rest) = cEscOut t v ++ cOut t rest' := by
+  rw [cOut]
+  simp only [hr, and_self, if_true]
+  split
+  · rename_i h'
+    rw [h] at h'
+    cases h'
+    rfl
+  · rename_i h'
+    rw [h] at h'
+    cases h'
+
+theorem cOut_noesc (t : QTab) {rest : Str} (hr : t.requote = true)
+    (h : takeEscape restoreCh rest = none) :
+    cOut t (37 :: rest) = cWriteOut t 37 ++ cOut t rest := by
+  rw [cOut]
+  simp only [hr, and_self, if_true]
+  split
+  · rename_i h'
+    rw [h] at h'
+    cases h'
+  · rfl
+
+theorem cOut_plain (t : QTab) {c : Nat} {rest : Str} (hc : ¬(c = 37 ∧ t.requote = true)) :
+    cOut t (c :: rest) = cWriteOut t c ++ cOut t rest := by
+  rw [cOut]
+  simp only [hc, if_false]
+
+theorem cChanged_esc (t : QTab) {rest rest' : Str} {v d1 d2 : Nat} (hr : t.requote = true)
+    (h : takeEscape restoreCh rest = some (v, d1, d2, rest')) :
+    cChanged t (37 :: rest) = (cEscChanged t v d1 d2 || cChanged t rest') := by
+  rw [cChanged]
+  simp only [hr, and_self, if_true]
+  split
+  · rename_i h'
+    rw [h] at h'
+    cases h'
+    rfl
+  · rename_i h'
+    rw [h] at h'
+    cases h'
+
+theorem cChanged_noesc (t : QTab) {rest : Str} (hr : t.requote = true)
+    (h : takeEscape restoreCh rest = none) :
+    cChanged t (37 :: rest) = (cWriteChanged t 37 || cChanged t rest) := by
+  rw [cChanged]
+  simp only [hr, and_self, if_true]
+  split
+  · rename_i h'
+    rw [h] at h'
+    cases h'
+  · rfl
+
+theorem cChanged_plain (t : QTab) {c : Nat} {rest : Str} (hc : ¬(c = 37 ∧ t.requote = true)) :
+    cChanged t (c :: rest) = (cWriteChanged t c || cChanged t rest) := by
+  rw [cChanged]
+  simp only [hc, if_false]
+
+theorem pyLoop_esc (t : QTab) {rest rest' : List Nat} {v d1 d2 : Nat} (hr : t.requote = true)
+    (h : takeEscape restorePy rest = some (v, d1, d2, rest')) :
+    pyLoop t (37 :: rest) = emitEsc t v ++ pyLoop t rest' := by
+  rw [pyLoop]
+  simp only [hr, and_self, if_true]
+  split
+  · rename_i h'
+    rw [h] at h'
+    cases h'
+    rfl
+  · rename_i h'
+    rw [h] at h'
+    cases h'
+
+theorem pyLoop_noesc (t : QTab) {rest : List Nat} (hr : t.requote = true)
+    (h : takeEscape restorePy rest = none) :
+    pyLoop t (37 :: rest) = pct 37 ++ pyLoop t rest := by
+  rw [pyLoop]
+  simp only [hr, and_self, if_true]
+  split
+  · rename_i h'
+    rw [h] at h'
+    cases h'
+  · rfl
+
+theorem pyLoop_plain (t : QTab) {b : Nat} {rest : List Nat} (hc : ¬(b = 37 ∧ t.requote = true)) :
+    pyLoop t (b :: rest) =
+      if t.qs = true ∧ b = 32 then 43 :: pyLoop t rest
+      else if t.safe b then b :: pyLoop t rest
+      else pct b ++ pyLoop t rest := by
+  rw [pyLoop]
+  simp only [hc, if_false]
+
+
+theorem pyStr_tail {c : Nat} {s : Str} (h : PyStr (c :: s)) : PyStr s :=
+  fun x hx => h x (List.mem_cons_of_mem _ hx)
+theorem noSurr_tail {c : Nat} {s : Str} (h : NoSurrogate (c :: s)) : NoSurrogate s :=
+  fun x hx => h x (List.mem_cons_of_mem _ hx)
+theorem pyStr_tail2 {a b : Nat} {s : Str} (h : PyStr (a :: b :: s)) : PyStr s :=
+  pyStr_tail (pyStr_tail h)
+theorem noSurr_tail2 {a b : Nat} {s : Str} (h : NoSurrogate (a :: b :: s)) : NoSurrogate s :=
+  noSurr_tail (noSurr_tail h)
+
+end QuoteEquiv
 
 /-- the `changed` flag is sound: when it stays unset the written text is the input -/
 theorem cOut_eq_of_not_changed (t : QTab) (h : t.WF) (s : Str) (hs : PyStr s) (hn : NoSurrogate s) :
     cChanged t s = false → cOut t s = s := by
-  sorry
+  fun_induction cOut t s with
+  | case1 => intro _; rfl
+  | case2 c rest hc v d1 d2 rest' he ih =>
+    obtain ⟨rfl, hr⟩ := hc
+    obtain ⟨rfl, hv⟩ := takeEscape_eq he
+    intro hch
+    rw [QuoteEquiv.cChanged_esc t hr he, Bool.or_eq_false_iff] at hch
+    obtain ⟨h1, h2⟩ := hch
+    rw [ih (QuoteEquiv.pyStr_tail2 (QuoteEquiv.pyStr_tail hs))
+      (QuoteEquiv.noSurr_tail2 (QuoteEquiv.noSurr_tail hn)) h2]
+    unfold cEscChanged at h1
+    unfold cEscOut
+    split at h1
+    · cases h1
+    · split at h1
+      · cases h1
+      · rename_i hp hsf
+        rw [Bool.or_eq_false_iff] at h1
+        simp only [hp, hsf, if_false]
+        rw [Hex.pct_of_restoreCh hv h1.1 h1.2]
+        rfl
+  | case3 c rest hc he ih =>
+    obtain ⟨rfl, hr⟩ := hc
+    intro hch
+    rw [QuoteEquiv.cChanged_noesc t hr he, Bool.or_eq_false_iff] at hch
+    have : cWriteChanged t 37 = true := by
+      simp [cWriteChanged, h.pct_unsafe, utf8]
+    rw [this] at hch
+    cases hch.1
+  | case4 c rest hc ih =>
+    intro hch
+    rw [QuoteEquiv.cChanged_plain t hc, Bool.or_eq_false_iff] at hch
+    obtain ⟨h1, h2⟩ := hch
+    rw [ih (QuoteEquiv.pyStr_tail hs) (QuoteEquiv.noSurr_tail hn) h2]
+    unfold cWriteChanged at h1
+    unfold cWriteOut
+    split at h1
+    · cases h1
+    · rename_i hq
+      simp only [hq, if_false]
+      split at h1
+      · rename_i hsafe
+        simp only [hsafe, and_self, if_true]
+        rfl
+      · rw [QuoteEquiv.utf8_ne_nil (hs c (List.mem_cons_self ..)) (hn c (List.mem_cons_self ..))] at h1
+        cases h1
 
-/-- the fast path is sound -/
-theorem allSafe_cOut (t : QTab) (h : t.WF) (s : Str) : allSafe t s = true → cOut t s = s := by
-  sorry
+/-- the fast path is sound.  The hypothesis `hsp` (a query-string table has no literal-safe
+    space) is necessary: with `qs = true` and `safe 32 = true`, `allSafe t [32] = true` but
+    `cOut t [32] = [43]`. -/
+theorem allSafe_cOut (t : QTab) (h : t.WF) (hsp : t.qs = true → t.safe 32 = false) (s : Str) :
+    allSafe t s = true → cOut t s = s := by
+  induction s with
+  | nil => intro _; rw [cOut]
+  | cons c rest ih =>
+    intro ha
+    simp only [allSafe, List.all_cons, Bool.and_eq_true, decide_eq_true_eq] at ha
+    obtain ⟨⟨hc, hsafe⟩, hrest⟩ := ha
+    have hne : ¬(c = 37 ∧ t.requote = true) := by
+      rintro ⟨rfl, _⟩
+      rw [h.pct_unsafe] at hsafe
+      cases hsafe
+    rw [QuoteEquiv.cOut_plain t hne, ih (by simpa [allSafe] using hrest)]
+    have hq : ¬(t.qs = true ∧ c = 32) := by
+      rintro ⟨hq, rfl⟩
+      rw [hsp hq] at hsafe
+      cases hsafe
+    simp only [cWriteOut, hq, if_false, hc, hsafe, and_self, if_true]
+    rfl
+
+namespace QuoteEquiv
+
+theorem pyStr_stripSurr {s : Str} (hs : PyStr s) : PyStr (stripSurr s) :=
+  fun c hc => hs c (List.mem_filter.mp hc).1
+
+theorem noSurr_stripSurr (s : Str) : NoSurrogate (stripSurr s) := by
+  intro c hc
+  have := (List.mem_filter.mp hc).2
+  simpa using this
+
+end QuoteEquiv
 
 /-- so the compiled quoter is `cOut` after dropping lone surrogates -/
-theorem quoteC_eq_cOut (t : QTab) (h : t.WF) (s : Str) (hs : PyStr s) :
-    quoteC t s = cOut t (stripSurr s) := by
-  sorry
+theorem quoteC_eq_cOut (t : QTab) (h : t.WF) (hsp : t.qs = true → t.safe 32 = false) (s : Str)
+    (hs : PyStr s) : quoteC t s = cOut t (stripSurr s) := by
+  simp only [quoteC]
+  split
+  · rename_i ha
+    exact (allSafe_cOut t h hsp _ ha).symm
+  · split
+    · rfl
+    · rename_i hc
+      exact (cOut_eq_of_not_changed t h _ (QuoteEquiv.pyStr_stripSurr hs)
+        (QuoteEquiv.noSurr_stripSurr s) (by simpa using hc)).symm
+
+theorem utf8s_stripSurr (s : Str) : utf8s (stripSurr s) = utf8s s := by
+  induction s with
+  | nil => rfl
+  | cons c rest ih =>
+    rw [QuoteEquiv.utf8s_cons, stripSurr, List.filter_cons]
+    cases hc : isSurrogate c
+    · simp only [Bool.not_false, if_true]
+      rw [QuoteEquiv.utf8s_cons]
+      rw [← ih]; rfl
+    · simp only [Bool.not_true, Bool.false_eq_true, if_false]
+      rw [QuoteEquiv.utf8_surrogate hc, List.nil_append, ← ih]; rfl
+
+namespace QuoteEquiv
+open Yarl.Hex
+
+theorem emitEsc_eq (t : QTab) (h : t.WF) (v : Nat) : emitEsc t v = cEscOut t v := by
+  unfold emitEsc cEscOut
+  cases hp : t.prot v
+  · cases hsf : t.safe v
+    · simp
+    · simp [h.safe_ascii v hsf]
+  · simp [h.safe_ascii v (h.prot_safe v hp)]
+
+theorem cWriteOut_pct (t : QTab) (h : t.WF) : cWriteOut t 37 = pct 37 := by
+  simp [cWriteOut, h.pct_unsafe, writeUtf8, utf8]
+
+/-- bytes ≥ 0x80 are each written as an escape by the byte loop -/
+theorem pyLoop_high (t : QTab) (h : t.WF) (bs tail : List Nat) (hb : ∀ b ∈ bs, 128 ≤ b) :
+    pyLoop t (bs ++ tail) = bs.flatMap pct ++ pyLoop t tail := by
+  induction bs with
+  | nil => rfl
+  | cons b bs ih =>
+    have hb128 : 128 ≤ b := hb b (List.mem_cons_self ..)
+    have h1 : ¬(b = 37 ∧ t.requote = true) := by omega
+    have h2 : ¬(t.qs = true ∧ b = 32) := by omega
+    have h3 : t.safe b = false := by
+      cases hsf : t.safe b
+      · rfl
+      · have := h.safe_ascii b hsf; omega
+    rw [List.cons_append, pyLoop_plain t h1]
+    simp only [h2, h3, if_false, Bool.false_eq_true]
+    rw [ih (fun x hx => hb x (List.mem_cons_of_mem _ hx))]
+    simp [List.flatMap_cons]
+
+/-- one ordinary character: the byte loop over its UTF-8 form writes what `_write` writes -/
+theorem pyLoop_char (t : QTab) (h : t.WF) (c : Nat) (tail : List Nat)
+    (hc : ¬(c = 37 ∧ t.requote = true)) :
+    pyLoop t (utf8 c ++ tail) = cWriteOut t c ++ pyLoop t tail := by
+  by_cases hlt : c < 128
+  · rw [utf8_ascii hlt, List.singleton_append, pyLoop_plain t hc]
+    unfold cWriteOut
+    by_cases hq : t.qs = true ∧ c = 32
+    · simp only [hq, and_self, if_true]; rfl
+    · simp only [hq, if_false]
+      cases hsf : t.safe c
+      · simp [hlt, writeUtf8, utf8_ascii]
+      · simp [hlt]
+  · have hge : 128 ≤ c := by omega
+    rw [pyLoop_high t h _ _ (utf8_high hge)]
+    have hq : ¬(t.qs = true ∧ c = 32) := by omega
+    simp only [cWriteOut, hq, if_false, hlt, false_and, writeUtf8]
+
+theorem utf8_head_high {c : Nat} (h : 128 ≤ c) (hp : c ≤ 0x10FFFF) (hs : isSurrogate c = false) :
+    ∃ b tl, utf8 c = b :: tl ∧ 128 ≤ b := by
+  have hne := utf8_ne_nil hp hs
+  have hh := utf8_high h
+  cases hu : utf8 c with
+  | nil => rw [hu] at hne; cases hne
+  | cons b tl => exact ⟨b, tl, rfl, hh b (by rw [hu]; exact List.mem_cons_self ..)⟩
+
+theorem takeEscapePy_none_first {b : Nat} (l : List Nat) (hb : 128 ≤ b) :
+    takeEscape restorePy (b :: l) = none := by
+  cases l with
+  | nil => rfl
+  | cons b2 r =>
+    simp only [takeEscape, restorePy_eq_restoreCh,
+      restoreCh_none_left b2 (fromHex_none_of_ge hb)]
+
+theorem takeEscapePy_none_second (d1 : Nat) {b : Nat} (l : List Nat) (hb : 128 ≤ b) :
+    takeEscape restorePy (d1 :: b :: l) = none := by
+  simp only [takeEscape, restorePy_eq_restoreCh,
+    restoreCh_none_right d1 (fromHex_none_of_ge hb)]
+
+theorem takeEscape_utf8s_some {rest rest' : Str} {v d1 d2 : Nat}
+    (he : takeEscape restoreCh rest = some (v, d1, d2, rest')) :
+    takeEscape restorePy (utf8s rest) = some (v, d1, d2, utf8s rest') := by
+  obtain ⟨rfl, hv⟩ := takeEscape_eq he
+  obtain ⟨h1, h2⟩ := restoreCh_ascii hv
+  rw [utf8s_cons, utf8s_cons, utf8_ascii h1, utf8_ascii h2]
+  simp only [List.singleton_append, takeEscape, restorePy_eq_restoreCh, hv]
+
+theorem takeEscape_utf8s_none {rest : Str} (hs : PyStr rest) (hn : NoSurrogate rest)
+    (he : takeEscape restoreCh rest = none) :
+    takeEscape restorePy (utf8s rest) = none := by
+  match rest, hs, hn, he with
+  | [], _, _, _ => rfl
+  | d1 :: r, hs, hn, he =>
+    rw [utf8s_cons]
+    by_cases h1 : d1 < 128
+    · rw [utf8_ascii h1, List.singleton_append]
+      match r, hs, hn, he with
+      | [], _, _, _ => rfl
+      | d2 :: r', hs, hn, he =>
+        rw [utf8s_cons]
+        by_cases h2 : d2 < 128
+        · rw [utf8_ascii h2, List.singleton_append]
+          simp only [takeEscape] at he ⊢
+          rw [restorePy_eq_restoreCh]
+          cases hrc : restoreCh d1 d2 with
+          | none => rfl
+          | some v => rw [hrc] at he; cases he
+        · obtain ⟨b, tl, hu, hb⟩ := utf8_head_high (Nat.le_of_not_lt h2)
+            (hs d2 (by simp)) (hn d2 (by simp))
+          rw [hu, List.cons_append]
+          exact takeEscapePy_none_second d1 _ hb
+    · obtain ⟨b, tl, hu, hb⟩ := utf8_head_high (Nat.le_of_not_lt h1)
+        (hs d1 (by simp)) (hn d1 (by simp))
+      rw [hu, List.cons_append]
+      exact takeEscapePy_none_first _ hb
+
+end QuoteEquiv
 
 /-- byte loop over the UTF-8 form = code-point loop -/
 theorem pyLoop_utf8s_eq_cOut (t : QTab) (h : t.WF) (s : Str) (hs : PyStr s) (hn : NoSurrogate s) :
     pyLoop t (utf8s s) = cOut t s := by
-  sorry
+  fun_induction cOut t s with
+  | case1 => rw [utf8s, List.flatMap_nil, pyLoop]
+  | case2 c rest hc v d1 d2 rest' he ih =>
+    obtain ⟨rfl, hr⟩ := hc
+    have hrest := takeEscape_eq he
+    rw [QuoteEquiv.utf8s_cons, QuoteEquiv.utf8_ascii (by omega : 37 < 128), List.singleton_append,
+      QuoteEquiv.pyLoop_esc t hr (QuoteEquiv.takeEscape_utf8s_some he),
+      QuoteEquiv.emitEsc_eq t h]
+    obtain ⟨rfl, _⟩ := hrest
+    rw [ih (QuoteEquiv.pyStr_tail2 (QuoteEquiv.pyStr_tail hs))
+      (QuoteEquiv.noSurr_tail2 (QuoteEquiv.noSurr_tail hn))]
+  | case3 c rest hc he ih =>
+    obtain ⟨rfl, hr⟩ := hc
+    rw [QuoteEquiv.utf8s_cons, QuoteEquiv.utf8_ascii (by omega : 37 < 128), List.singleton_append,
+      QuoteEquiv.pyLoop_noesc t hr (QuoteEquiv.takeEscape_utf8s_none (QuoteEquiv.pyStr_tail hs)
+        (QuoteEquiv.noSurr_tail hn) he),
+      QuoteEquiv.cWriteOut_pct t h,
+      ih (QuoteEquiv.pyStr_tail hs) (QuoteEquiv.noSurr_tail hn)]
+  | case4 c rest hc ih =>
+    rw [QuoteEquiv.utf8s_cons, QuoteEquiv.pyLoop_char t h c _ hc,
+      ih (QuoteEquiv.pyStr_tail hs) (QuoteEquiv.noSurr_tail hn)]
 
-theorem utf8s_stripSurr (s : Str) : utf8s (stripSurr s) = utf8s s := by
-  sorry
-
-theorem quotePy_eq_quoteC (t : QTab) (h : t.WF) (s : Str) (hs : PyStr s) :
-    quotePy t s = quoteC t s := by
-  sorry
+/-- the two backends agree on every Python string.  (`hsp` is needed: see `allSafe_cOut`.) -/
+theorem quotePy_eq_quoteC (t : QTab) (h : t.WF) (hsp : t.qs = true → t.safe 32 = false) (s : Str)
+    (hs : PyStr s) : quotePy t s = quoteC t s := by
+  rw [quoteC_eq_cOut t h hsp s hs, quotePy, ← utf8s_stripSurr,
+    pyLoop_utf8s_eq_cOut t h _ (QuoteEquiv.pyStr_stripSurr hs) (QuoteEquiv.noSurr_stripSurr s)]
 
 end Yarl
